@@ -1,6 +1,7 @@
 from __future__ import annotations
 
 import logging
+import math
 from typing import TYPE_CHECKING, Tuple, Type, Union
 
 from indi.device import events, values
@@ -137,6 +138,14 @@ class Number(Element):
 
     def set_value_from_message(self, msg):
         self.set_value(values.str_to_num(msg.value, self._definition.format))
+
+    def check_value(self, value):
+        try:
+            if value is not None and not math.isfinite(value):
+                raise ValueError("Number value has to be finite")
+        except OverflowError:
+            raise ValueError("Number value is out of range")
+        return value
 
 
 class Text(Element):
